@@ -52,6 +52,12 @@ impl Mutex {
     }
 
     pub(crate) fn release_lock(&self) {
+        // Releasing the lock is visible to other threads (a `try_lock` fails
+        // until it happened), so it is a point where they may be scheduled.
+        if !std::thread::panicking() {
+            self.state.branch_try(Location::disabled());
+        }
+
         super::execution(|execution| {
             let state = self.state.get_mut(&mut execution.objects);
 
